@@ -1336,6 +1336,16 @@ func (ex *Exec) execAssign(st *State, n *ast.AssignStmt) {
 			refs = append(refs, nil)
 			continue
 		}
+		if ix, ok := l.(*ast.IndexExpr); ok {
+			if _, isMap := ex.info.TypeOf(ix.X).Underlying().(*types.Map); isMap {
+				// map contents are abstract (reads are unconstrained): a store changes nothing that is modelled
+				ex.evalExpr(st, ix.X)
+				ex.evalExpr(st, ix.Index)
+				ex.note("store into a map at %s: map contents are abstract", ex.pos(l))
+				refs = append(refs, nil)
+				continue
+			}
+		}
 		if n.Tok == token.DEFINE {
 			if id, ok := l.(*ast.Ident); ok {
 				if obj := ex.info.Defs[id]; obj != nil {
